@@ -222,12 +222,12 @@ func discriminating(r *R, cfgs []Cfg) *reqPool {
 func (e c07) Gen(r *R, tier string) any {
 	p := &C07Plan{}
 	n := r.Range(2, 4)
-	p.Cfgs = append(p.Cfgs, genCfg(r))
+	p.Cfgs = append(p.Cfgs, genCfgX(r))
 	for i := 1; i < n; i++ {
 		if r.P(0.5) {
 			p.Cfgs = append(p.Cfgs, varyCfg(r, p.Cfgs[r.Intn(i)]))
 		} else {
-			p.Cfgs = append(p.Cfgs, genCfg(r))
+			p.Cfgs = append(p.Cfgs, genCfgX(r))
 		}
 	}
 	p.InitCfg = r.Intn(n+1) - 1
